@@ -51,11 +51,12 @@ class Analysis:
         self.init_probe = it
         return out
 
-    def run(self, entry, mode="th", inline_api=True, overrides=None, tagk=None) -> Interp:
+    def run(self, entry, mode="th", inline_api=True, overrides=None, tagk=None, assume=None) -> Interp:
         key = (entry, mode, inline_api, tagk)
         if key not in self._runs:
             it = Interp(self.p, entry, mode, inline_api=inline_api, path_attrs=self.path_attrs, sync=self.sync)
             it.alias = dict(self.alias)
+            it.assume = assume
             ov = dict(overrides or {})
             it.run(ov)
             self._runs[key] = it
@@ -68,6 +69,15 @@ class Analysis:
         for m in modes:
             for a in PUBLIC_API:
                 yield self.api(a, m)
+
+    def all_lockops(self):
+        """lock operations written as `with self.<cond>` plus those on locals that can only
+        hold condition attributes (discovered while interpreting the public entry points)"""
+        ops = {(o.func.qual, o.node.lineno): o for o in self.lockops}
+        for it in self.all_api_runs(("th",)):
+            for k, o in it.dynamic_ops.items():
+                ops.setdefault(k, o)
+        return [ops[k] for k in sorted(ops)]
 
     def problems(self):
         out = []
